@@ -82,7 +82,14 @@ CONSTANTS Policies,   \* subset of {"default","reusable","mtsafe","stack","place
           Grain,      \* "call" | "atomic" | "alloc"
           Fixed,      \* see above
           MaxMoves,   \* reusable: bound on constructions / moves / destructions of storage objects
-          MaxOwner    \* buffer: bound on what the owner does to the vector between two frames
+          MaxOwner,   \* buffer: bound on what the owner does to the vector between two frames
+          MaxPrep,    \* stack: bound on storages prepared (constructed + given their alloca block) ahead of use;
+                      \* at most one frame before the first preparation, at most 3 frames in such a history, and
+                      \* once a storage is prepared ahead every frame uses a prepared storage
+          MaxThrows,  \* attached-object layer: bound on creations whose factory throws (at most one frame before
+                      \* it, at most 2 frames in such a history)
+          ThrowFixed  \* promise_extra_storage::alloc gives the block back to its base when the factory throws
+                      \* (coro_storage.h:228-233 at the pinned tree does not: FALSE)
 
 VARIABLES env,    \* [pol, ex, init]: never changes
           heap,   \* [1..NSlots -> Nat]: 0 = free, otherwise the size the block was requested with
@@ -93,9 +100,12 @@ VARIABLES env,    \* [pol, ex, init]: never changes
           news, dels,  \* operator new / operator delete calls made so far
           dbl,    \* operator delete calls on a block that is not allocated (never, says the property)
           torn,   \* every storage object has been destroyed
-          nmov, nown
+          prep,   \* stack: sizes the storages prepared ahead were given (what their owner alloca'd)
+          nmov, nown,
+          nthrow  \* factory exceptions that reached the creator of the coroutine
 
-vars == <<env, heap, fr, objs, busy, pc, news, dels, dbl, torn, nmov, nown>>
+vars == <<env, heap, fr, objs, busy, pc, news, dels, dbl, torn, prep, nmov, nown, nthrow>>
+Rest == <<prep, nmov, nown, nthrow>>
 
 Policy == env.pol
 Ex == env.ex
@@ -195,7 +205,8 @@ Init == /\ env \in {[pol |-> p, ex |-> x, init |-> i] : p \in Policies, x \in BO
         /\ busy = FALSE
         /\ pc = [t \in Threads |-> Idle]
         /\ news = 0 /\ dels = 0 /\ dbl = 0
-        /\ torn = FALSE /\ nmov = 0 /\ nown = 0
+        /\ torn = FALSE /\ nmov = 0 /\ nown = 0 /\ nthrow = 0
+        /\ prep = <<>>
 
 (* ---- policies whose alloc / dealloc contain no scheduling point: <<store', frame record>> ---- *)
 SeqCreate(o, c) ==
@@ -224,7 +235,8 @@ CanCreate(t, c, o) ==
     /\ ~torn /\ At(t, "idle") /\ c \in Classes
     /\ objs[o].st = "live"
     /\ Ex => objs[o].fac                          \* a storage whose factory was moved out cannot be used
-    /\ Len(fr) + Cardinality(Creating) < MaxFrames
+    /\ Len(fr) + Cardinality(Creating) < (IF nthrow > 0 /\ MaxFrames > 2 THEN 2
+                                           ELSE IF prep # <<>> /\ MaxFrames > 3 THEN 3 ELSE MaxFrames)
     /\ Cardinality(LiveOn(o)) + Cardinality(Creating) < MaxLive
     /\ Policy = "placement" => Req(c) <= objs[o].cap     \* precondition: the caller's buffer is large enough
 
@@ -254,7 +266,7 @@ MtCreate(t, c) ==
 
 CreateOn(t, c, o) ==
     /\ CanCreate(t, c, o)
-    /\ UNCHANGED <<env, torn, nmov, nown>>
+    /\ UNCHANGED <<env, torn, Rest>>
     /\ IF Policy = "mtsafe"
          THEN MtCreate(t, c)
          ELSE LET r == SeqCreate(o, c) IN
@@ -262,13 +274,13 @@ CreateOn(t, c, o) ==
               /\ fr' = Append(fr, r[2])
               /\ UNCHANGED <<busy, pc>>
 
-Create(t, c) == objs[1].st = "live" /\ CreateOn(t, c, 1)
+Create(t, c) == objs[1].st = "live" /\ prep = <<>> /\ CreateOn(t, c, 1)
 CreateB(t, c) == Movable /\ CreateOn(t, c, 2)      \* a frame on the second storage object
 
 (* an operator new call of the storage (grain "alloc") *)
 New(t) ==
     /\ pc[t].at \in {"new_heap", "new_shared"}
-    /\ UNCHANGED <<env, busy, torn, nmov, nown>>
+    /\ UNCHANGED <<env, busy, torn, Rest>>
     /\ LET c == pc[t].c
            sz == Req(c)
            s == Lowest(heap) IN
@@ -288,7 +300,7 @@ New(t) ==
 (* an operator delete call of the storage (grain "alloc") *)
 Del(t) ==
     /\ pc[t].at \in {"del_old", "del_after", "delete"}
-    /\ UNCHANGED <<env, busy, torn, nmov, nown>>
+    /\ UNCHANGED <<env, busy, torn, Rest>>
     /\ LET c == pc[t].c
            sz == Req(c) IN
        CASE At(t, "del_old") ->      \* coro_storage.h:50: _ptr keeps the released address until line 51
@@ -312,7 +324,7 @@ Del(t) ==
 Complete(t, f) ==
     /\ ~torn /\ At(t, "idle") /\ f \in Live
     /\ fr' = [fr EXCEPT ![f] = Gone(@)]
-    /\ UNCHANGED <<env, torn, nmov, nown>>
+    /\ UNCHANGED <<env, torn, Rest>>
     /\ IF Policy = "mtsafe"
          THEN IF fr[f].slot = ptr
                 THEN IF Grain = "call"
@@ -328,7 +340,56 @@ Store(t) ==
     /\ At(t, "store")
     /\ busy' = FALSE
     /\ Resume(t)
-    /\ Same /\ UNCHANGED <<env, fr, torn, nmov, nown>>
+    /\ Same /\ UNCHANGED <<env, fr, torn, Rest>>
+
+-----------------------------------------------------------------------------
+(* stack_storage: storages may be prepared ahead of their use -- constructed from the shared state and given
+   a block of the size they asked for (`storage = alloca(storage)`), alloca_storage.h:29-36.  What alloc may
+   place in that block is bounded by the size the storage was PREPARED with (the snapshot _alloc_size),
+   whatever a heap fallback of another storage has written to the shared state since; a prepared storage
+   may be used again once its block is free (e.g. after its first frame fell back to the heap). *)
+Occupied(i) == \E f \in Live : fr[f].where = "stack" /\ fr[f].slot = i
+Prepare ==
+    /\ Policy = "stack" /\ ~torn /\ Len(prep) < MaxPrep
+    /\ Live = {} /\ (prep = <<>> => Len(fr) <= 1)
+    /\ prep' = Append(prep, cap)
+    /\ UNCHANGED <<env, heap, fr, objs, busy, pc, news, dels, dbl, torn, nmov, nown, nthrow>>
+CreateP(t, c, i) ==
+    /\ Policy = "stack" /\ i \in 1..Len(prep) /\ ~Occupied(i)
+    /\ CanCreate(t, c, 1)
+    /\ UNCHANGED <<env, torn, busy, pc, Rest>>
+    /\ IF Req(c) <= prep[i]
+         THEN /\ CommitI(1, St(1), NewInv(1))
+              /\ fr' = Append(fr, Rec(c, 1, "stack", i, prep[i], "0", FALSE))
+         ELSE /\ CommitI(1, [DoNew(St(1), Req(c)) EXCEPT !.cap = Req(c)], NewInv(1))
+              /\ fr' = Append(fr, Rec(c, 1, "heap", Lowest(heap), Req(c), "1", FALSE))
+
+(* the user's factory throws inside promise_extra_storage::alloc, coro_storage.h:228-233: the base policy has
+   handed out memory, no object is constructed, no frame comes into being, the exception reaches whoever
+   created the coroutine.  ThrowFixed: the memory goes back to the base policy (its dealloc, with the size
+   its alloc got); otherwise it stays where it is: a heap block is never released, the thread-safe storage
+   stays busy. *)
+MtAllocCall(sz) ==       \* reusable_storage_mtsafe::alloc as one step: <<store', slot of the block, shared block?>>
+    IF busy THEN <<DoNew(St(1), sz), Lowest(heap), FALSE>>
+    ELSE IF sz <= cap THEN <<St(1), ptr, TRUE>>
+    ELSE LET S == Grow(St(1), sz) IN <<S, S.ptr, TRUE>>
+CreateThrow(t, c) ==
+    /\ Ex /\ Grain = "call" /\ nthrow < MaxThrows /\ prep = <<>> /\ Len(fr) <= 1
+    /\ CanCreate(t, c, 1)
+    /\ nthrow' = nthrow + 1
+    /\ UNCHANGED <<env, fr, pc, torn, prep, nmov, nown>>
+    /\ IF Policy = "mtsafe"
+         THEN LET a == MtAllocCall(Req(c)) IN
+              IF a[3] THEN Commit(1, a[1]) /\ busy' = ~ThrowFixed          \* exchange set it, only dealloc clears it
+              ELSE Commit(1, IF ThrowFixed THEN DoDel(a[1], a[2]) ELSE a[1]) /\ UNCHANGED busy
+         ELSE LET r == SeqCreate(1, c)
+                  S == r[1]
+                  f == r[2]
+                  back == CASE ~ThrowFixed -> S
+                            [] Policy = "default" -> DoDel(S, f.slot)
+                            [] Policy = "stack" /\ f.tr = "1" -> DoDel(S, f.slot)
+                            [] OTHER -> S
+              IN Commit(1, back) /\ UNCHANGED busy
 
 -----------------------------------------------------------------------------
 (* reusable_storage is movable (coro_storage.h:33-43); with the attached-object layer the factory and
@@ -341,7 +402,7 @@ NewObj ==
     /\ MoveOK /\ objs[2].st = "none"
     /\ objs' = [objs EXCEPT ![2] = [st |-> "live", ptr |-> 0, cap |-> 0, inv |-> 0, fac |-> TRUE]]
     /\ nmov' = nmov + 1
-    /\ UNCHANGED <<env, heap, fr, busy, pc, news, dels, dbl, torn, nown>>
+    /\ UNCHANGED <<env, heap, fr, busy, pc, news, dels, dbl, torn, nown, prep, nthrow>>
 
 (* reusable_storage b(std::move(a)), coro_storage.h:33-35: block and capacity go to the new object together *)
 MoveCtor ==
@@ -349,14 +410,14 @@ MoveCtor ==
     /\ objs' = [objs EXCEPT ![2] = [objs[1] EXCEPT !.st = "live"],
                             ![1] = [objs[1] EXCEPT !.ptr = 0, !.cap = 0, !.fac = ~Ex]]
     /\ nmov' = nmov + 1
-    /\ UNCHANGED <<env, heap, fr, busy, pc, news, dels, dbl, torn, nown>>
+    /\ UNCHANGED <<env, heap, fr, busy, pc, news, dels, dbl, torn, nown, prep, nthrow>>
 
 (* d = std::move(s), coro_storage.h:36-43: d's block is released, (block, capacity) of s move to d, s is empty;
    self-assignment changes nothing *)
 MoveAssign(s, d) ==
     /\ MoveOK /\ objs[s].st = "live" /\ objs[d].st = "live"
     /\ nmov' = nmov + 1
-    /\ UNCHANGED <<env, fr, busy, pc, torn, nown>>
+    /\ UNCHANGED <<env, fr, busy, pc, torn, nown, prep, nthrow>>
     /\ IF s = d THEN Same
        ELSE /\ CommitH(DoDel(St(d), objs[d].ptr))
             /\ objs' = [objs EXCEPT ![d] = [objs[s] EXCEPT !.st = "live"],
@@ -368,14 +429,14 @@ Drop(o) ==
     /\ CommitH(DoDel(St(o), objs[o].ptr))
     /\ objs' = [objs EXCEPT ![o] = [NoObj EXCEPT !.st = "dead"]]
     /\ nmov' = nmov + 1
-    /\ UNCHANGED <<env, fr, busy, pc, torn, nown>>
+    /\ UNCHANGED <<env, fr, busy, pc, torn, nown, prep, nthrow>>
 
 -----------------------------------------------------------------------------
 (* reusable_buffer_storage does not own its buffer: while no coroutine is active the owner may do with the
    vector what it likes (coro_storage.h:184-192).  Sizes are those of the frame classes. *)
 OwnOK == Policy = "buffer" /\ Quiet /\ nown < MaxOwner
 OwnDone(S) == /\ Commit(1, S) /\ nown' = nown + 1
-              /\ UNCHANGED <<env, fr, busy, pc, torn, nmov>>
+              /\ UNCHANGED <<env, fr, busy, pc, torn, nmov, prep, nthrow>>
 
 OwnerResize(k) ==          \* buf.resize(n): smaller keeps the block, larger may reallocate
     /\ OwnOK /\ k \in Classes /\ Req(k) # cap
@@ -406,9 +467,11 @@ Teardown ==
                                   THEN [NoObj EXCEPT !.st = "dead",
                                                      !.cap = IF Policy \in {"stack", "placement"} THEN objs[o].cap ELSE 0]
                                   ELSE objs[o]]
-    /\ UNCHANGED <<env, fr, busy, pc, nmov, nown>>
+    /\ UNCHANGED <<env, fr, busy, pc, Rest>>
 
-Next == \/ \E t \in Threads, c \in 1..3 : Create(t, c) \/ CreateB(t, c)
+Next == \/ \E t \in Threads, c \in 1..3 : Create(t, c) \/ CreateB(t, c) \/ CreateThrow(t, c)
+        \/ \E t \in Threads, c \in 1..3, i \in 1..2 : CreateP(t, c, i)
+        \/ Prepare
         \/ \E t \in Threads, f \in 1..MaxCreate : Complete(t, f)
         \/ \E t \in Threads : New(t) \/ Del(t) \/ Store(t)
         \/ NewObj \/ MoveCtor
@@ -433,7 +496,8 @@ TypeOK == /\ \A s \in Slots : heap[s] \in Nat
 
 (* memory region a live frame sits in: a heap block, its own alloca buffer, the placement buffer *)
 Region(f) == CASE fr[f].where = "heap" -> <<"heap", fr[f].slot>>
-               [] fr[f].where = "stack" -> <<"stack", f>>
+               [] fr[f].where = "stack" /\ fr[f].slot = 0 -> <<"stack", f>>      \* the alloca block of its own call
+               [] fr[f].where = "stack" -> <<"prep", fr[f].slot>>                \* the block of a storage prepared ahead
                [] OTHER -> <<fr[f].where, 0>>
 
 (* no two simultaneously live frames in the same memory ... *)
@@ -490,6 +554,11 @@ MtSafeNeverShares ==
     Policy = "mtsafe" => /\ SharedUsers <= 1
                          /\ SharedUsers = 1 => busy
                          /\ \A f \in Live : fr[f].sh => fr[f].slot = ptr
+
+(* the thread-safe storage is busy only while somebody uses (or is about to release) its block *)
+BusyMeansInUse ==
+    (Policy = "mtsafe" /\ busy) =>
+        SharedUsers + Cardinality({t \in Threads : pc[t].at \in {"store"}}) >= 1
 
 (* single-frame policies are used with one live frame at a time per storage object: then the frame is in
    that object's block *)
